@@ -326,7 +326,21 @@ func c16Gen(tier string, rng *rand.Rand, emit func(string)) map[string]interface
 			}
 		}
 	}
-	return map[string]interface{}{"exhaustive": false, "scope": fmt.Sprintf("n in 0..%d x FixedPool in {nil,-1,0,1,2,3,5,n-1,n,n+3} x {ordered,RandomOrder} x {hold,free} x %d list seeds; + n<=12 grid over both element types", maxN, seeds),
+	// a few long lists: anything that depends on the size of the list beyond the grid (a buffer or pool size with a fixed
+	// ceiling, chunking) shows only there
+	for _, n := range []int{97, 256, 1000} {
+		for _, p := range []string{"nil", "1", "7", strconv.Itoa(n / 2), strconv.Itoa(n)} {
+			for _, mode := range []string{"o", "r"} {
+				hold := "0"
+				if p != "1" && (n+len(p)+len(mode)+count)%2 == 0 {
+					hold = "1"
+				}
+				emit(fmt.Sprintf("n=%d pool=%s mode=%s ty=%s hold=%s seed=%d", n, p, mode, []string{"i", "s"}[count%2], hold, rng.Intn(1000)))
+				count++
+			}
+		}
+	}
+	return map[string]interface{}{"exhaustive": false, "scope": fmt.Sprintf("n in 0..%d x FixedPool in {nil,-1,0,1,2,3,5,n-1,n,n+3} x {ordered,RandomOrder} x {hold,free} x %d list seeds; + n<=12 grid over both element types + n in {97,256,1000} x 5 pool sizes x both modes", maxN, seeds),
 		"cases": count, "max_n": maxN}
 }
 
